@@ -30,7 +30,6 @@ type combCase struct {
 	goShape  string
 }
 
-
 // lastDiagLeaf walks the rule left to right with short circuit using the stand-alone outcomes and returns the index
 // of the last reached comparison that has a diagnostic (-1 if none); ok=false when a failure/panic is met.
 func lastDiagLeaf(n *Node, obs []Obs, next *int, last *int) (verdict bool, ok bool) {
@@ -379,9 +378,79 @@ func checkC01(c *Ctx) {
 	})
 }
 
+// chainTo builds {p0: {p1: … {pn: v}}} below `into`
+func chainTo(into *AV, path []string, v *AV) {
+	cur := into
+	for i := 0; i < len(path)-1; i++ {
+		nx := cur.Get(path[i])
+		if nx == nil || nx.K != AVObj {
+			nx = avObj()
+			cur.Set(path[i], nx)
+		}
+		cur = nx
+	}
+	cur.Set(path[len(path)-1], v)
+}
+
+// c02Denotation: `p op lit` on O must behave like `q0 op lit` on {q0: the value p denotes in O} – whatever other keys O has,
+// in particular keys named like later segments of p at the root or inside other objects.
+func (c *Ctx) c02Denotation(n int) {
+	for i := 0; i < n && !c.full(); i++ {
+		lf := genLeaf(c.R, 4)
+		if len(lf.Path) < 2 && c.R.Chance(2, 3) {
+			lf.Path = append(lf.Path, genName(c.R), genName(c.R))
+		}
+		idc := 0
+		obj := avObj()
+		cut := len(lf.Path)
+		if c.R.Chance(4, 10) {
+			cut = c.R.Intn(len(lf.Path))
+		}
+		if cut == len(lf.Path) {
+			chainTo(obj, lf.Path, nearValue(c.R, lf, &idc))
+		} else if cut > 0 || c.R.Chance(1, 2) {
+			if c.R.Chance(1, 2) {
+				chainTo(obj, lf.Path[:cut+1], avNull())
+			} else if cut > 0 {
+				chainTo(obj, lf.Path[:cut], avObj())
+			}
+		}
+		// decoys: what a lookup restarted at the wrong place would find
+		for j := 1; j < len(lf.Path); j++ {
+			if c.R.Chance(1, 2) && obj.Get(lf.Path[j]) == nil {
+				chainTo(obj, lf.Path[j:], nearValue(c.R, lf, &idc))
+			}
+		}
+		den, ok := denote(obj, lf.Path)
+		if !ok {
+			continue
+		}
+		flat := avObj()
+		if den != nil {
+			flat.Set("q0", den)
+		}
+		lf2 := *lf
+		lf2.Path = []string{"q0"}
+		t1, t2 := c.style(c.R.Chance(1, 3)).Render(lf), c.style(true).Render(&lf2)
+		a := evalOn(t1, obj.GoMap(), poisonObjects(c.R, lf))
+		b := evalFresh(t2, flat.GoMap())
+		c.Res.Evaluations++
+		c.count("path_denotation")
+		if len(lf.Path) > 1 {
+			c.nontrivial(t1, obj.String())
+		}
+		if a.V != b.V || a.E != b.E || (a.D == "-") != (b.D == "-") || callsStr(a.Calls) != callsStr(b.Calls) {
+			c.violate(Violation{What: "a dotted path does not denote the value reached by successive key lookups (absent as soon as a step is missing or null)",
+				Rule: t1, RuleHex: hx(t1), Object: obj.Pretty(), ObjProto: obj.String(),
+				Demand: fmt.Sprintf("the path denotes %s, so the outcome of %q on %s: %s", den.PrettyOrAbsent(), t2, flat.Pretty(), b.Line()), Go: a.Line() + " " + a.ErrText})
+		}
+	}
+}
+
 func checkC02(c *Ctx) {
 	c.Res.Rule = "compound rules whose comparisons use paths of 1-4 segments over objects with missing keys, explicit nil and nil parents in the middle followed by further comparisons, several list literals and differently typed literals per rule; every comparison evaluated stand-alone by the engine on the same object; domain: object-shaped paths; compared: verdict, error class, diagnostic presence and Stringer call order against Lean `combine` of the stand-alone outcomes; non-trivial = distinct (rule, object) with >= 2 comparisons reached of which one has an absent attribute"
 	n := c.budget(6000, 240000)
+	c.c02Denotation(n)
 	c.combLoop(n, 8, func() *Node {
 		lf := genLeaf(c.R, 4)
 		if c.R.Chance(1, 3) && lf.T == NCmp {
@@ -531,6 +600,17 @@ func checkC06(c *Ctx) {
 	})
 }
 
+// fixNilLeaves replaces Go-nil AV pointers (from attribute class "absent") by explicit nulls
+func fixNilLeaves(a *AV) {
+	for i, v := range a.Vals {
+		if v == nil {
+			a.Vals[i] = avNull()
+		} else if v.K == AVObj {
+			fixNilLeaves(v)
+		}
+	}
+}
+
 func checkC16(c *Ctx) {
 	c.Res.Rule = "(a) table: every literal kind x operator x attribute class as a single comparison: LastDebugErr()!=nil compared with the model's `undecidable`, Error() must return a non-empty text without panicking; (b) compound rules: LastDebugErr()!=nil iff some reached comparison has a diagnostic when evaluated alone (Lean `combine`); domain: convertible literals, object-shaped paths; non-trivial = distinct (rule, object) in which some comparison is undecidable"
 	n := c.budget(6000, 240000)
@@ -547,6 +627,41 @@ func checkC16(c *Ctx) {
 				if a := ac(); a != nil {
 					obj.Set("x", a)
 				}
+				cells = append(cells, &leafCase{leaf: lf, text: c.style(false).Render(lf), obj: obj})
+			}
+		}
+	}
+	// the same cells behind paths of 2-4 segments with the attribute present, absent, or cut off by a missing or nil parent;
+	// presence tests and null tests included (they are always decided)
+	for rep := 0; rep < c.budget(4, 40); rep++ {
+		for _, kind := range append([]string{"pr"}, litKinds...) {
+			for op := 12; op <= 21; op++ {
+				path := genPath(c.R, 4)
+				for len(path) < 2 {
+					path = append(path, genName(c.R))
+				}
+				var lf *Node
+				if kind == "pr" {
+					lf = &Node{T: NPres, Path: path}
+				} else {
+					lf = &Node{T: NCmp, Path: path, Op: op, Lit: genLit(c.R, kind)}
+				}
+				obj := avObj()
+				switch c.R.Intn(4) {
+				case 0:
+					chainTo(obj, path, pick(c.R, attrClasses)())
+					if obj.Get(path[0]) == nil {
+						obj = avObj()
+					}
+				case 1:
+					cut := c.R.Intn(len(path))
+					chainTo(obj, path[:cut+1], avNull())
+				case 2:
+					if cut := c.R.Intn(len(path)); cut > 0 {
+						chainTo(obj, path[:cut], avObj())
+					}
+				}
+				fixNilLeaves(obj)
 				cells = append(cells, &leafCase{leaf: lf, text: c.style(false).Render(lf), obj: obj})
 			}
 		}
@@ -573,7 +688,7 @@ func checkC16(c *Ctx) {
 			c.count("outside_domain_rejected_by_the_engines_parser")
 			continue
 		}
-		if a := lc.obj.Get("x"); a != nil && (a.K == AVInt32 || a.K == AVInt64) && (lc.leaf.Lit.Kind == "dbl" || lc.leaf.Lit.Kind == "dlist") {
+		if a := lc.attr; a != nil && lc.leaf.T == NCmp && (a.K == AVInt32 || a.K == AVInt64) && (lc.leaf.Lit.Kind == "dbl" || lc.leaf.Lit.Kind == "dlist") {
 			// whether an int32/int64 attribute can be compared with a decimal literal is constrained by no property
 			c.count("unconstrained_int64_vs_decimal")
 			continue
